@@ -1,6 +1,7 @@
 package conc
 
 import (
+	"strings"
 	"errors"
 	"fmt"
 	"runtime"
@@ -179,12 +180,41 @@ func runC13(c *eng.Ctx) {
 				c.R.Begin(idx)
 				overlapOnce(c, idx, sc, anc, leaf, j, true)
 			}
+			if rt.YieldAvailable {
+				// the same two schedules at godi's INTERNAL yield points (between its critical sections)
+				nOp, nCl := countYields(sc, false), countYields(sc, true)
+				for j := 1; j <= nOp; j++ {
+					idx, mine := next()
+					if !mine {
+						continue
+					}
+					c.R.Begin(idx)
+					overlapAt(c, idx, sc, anc, leaf, j, false, true)
+					c.R.Count("internal_pause_points_op", 1)
+				}
+				for j := 1; j <= nCl; j++ {
+					idx, mine := next()
+					if !mine {
+						continue
+					}
+					c.R.Begin(idx)
+					overlapAt(c, idx, sc, anc, leaf, j, true, true)
+					c.R.Count("internal_pause_points_closer", 1)
+				}
+			}
 		}
 	}
 }
 
 // overlapOnce executes one (scenario, pause point) pair.
-func overlapOnce(c *eng.Ctx, idx int, sc overlapScenario, _, _ int, j int, mirror bool) {
+func overlapOnce(c *eng.Ctx, idx int, sc overlapScenario, a, b int, j int, mirror bool) {
+	overlapAt(c, idx, sc, a, b, j, mirror, false)
+}
+
+// overlapAt with internal=true parks the first operation at the j-th INTERNAL yield point it
+// passes (godi's instrumentation points between critical sections, build tag verif) instead of
+// at a user-code callback.
+func overlapAt(c *eng.Ctx, idx int, sc overlapScenario, _, _ int, j int, mirror bool, internal bool) {
 	r, anc, leaf := c13Setup(sc)
 	if !r.Built {
 		c.R.End(idx, eng.Hash("c13-unbuilt", sc.name), false)
@@ -208,13 +238,30 @@ func overlapOnce(c *eng.Ctx, idx int, sc overlapScenario, _, _ int, j int, mirro
 	if mirror {
 		where = "close"
 	}
+	var firstG int64 = -1
+	pausedAt := ""
 	gate = NewGate(func(hp rt.HookPoint) bool {
-		if hp.Where != where {
-			return false
-		}
 		cmu.Lock()
 		defer cmu.Unlock()
+		if internal {
+			if !strings.HasPrefix(hp.Where, "yield:") {
+				return false
+			}
+			if mirror {
+				// the closing cascade may run on godi's watcher goroutine (cancel): any Close point counts
+				if !strings.Contains(hp.Where, ".Close:") {
+					return false
+				}
+			} else if hp.G != firstG {
+				return false
+			}
+		} else if hp.Where != where {
+			return false
+		}
 		count++
+		if count == j {
+			pausedAt = hp.Where
+		}
 		return count == j
 	})
 	r.Rec.SetHook(gate.Hook)
@@ -225,7 +272,13 @@ func overlapOnce(c *eng.Ctx, idx int, sc overlapScenario, _, _ int, j int, mirro
 	var firstRes, secondRes core.OpResult
 	var wg sync.WaitGroup
 	wg.Add(1)
-	go func() { defer wg.Done(); firstRes = r.Do(first) }()
+	go func() {
+		defer wg.Done()
+		cmu.Lock()
+		firstG = rt.Goid()
+		cmu.Unlock()
+		firstRes = r.Do(first)
+	}()
 	reached := gate.WaitReached(20 * time.Second)
 	secondDone := make(chan struct{})
 	wg.Add(1)
@@ -245,6 +298,11 @@ func overlapOnce(c *eng.Ctx, idx int, sc overlapScenario, _, _ int, j int, mirro
 		feat += "|closer-parked"
 	} else {
 		feat += "|op-parked"
+	}
+	if internal {
+		cmu.Lock()
+		feat += "-at-" + strings.TrimPrefix(pausedAt, "yield:")
+		cmu.Unlock()
 	}
 	if v := awaitOrDiagnose(done, 60*time.Second); !v.Done {
 		if v.Deadlock {
@@ -622,4 +680,51 @@ func runC10Overlap(c *eng.Ctx, next func() (int, bool)) {
 			}
 		}
 	}
+}
+
+
+// countYields runs the scenario's op (or its closer) alone and counts the internal yield
+// points it passes (Close points only for the closer, whichever goroutine executes them).
+func countYields(sc overlapScenario, closer bool) int {
+	r, anc, leaf := c13Setup(sc)
+	if !r.Built {
+		return 0
+	}
+	op := sc.op
+	op.Scope = leaf
+	if sc.onParent {
+		op.Scope = 0
+	}
+	if closer {
+		core.ProbeRegistered(r, leaf)
+		core.ProbeRegistered(r, anc)
+		op = sc.closerOp(anc, leaf)
+	}
+	me := rt.Goid()
+	n := 0
+	var mu sync.Mutex
+	r.Rec.SetHook(func(hp rt.HookPoint) {
+		if !strings.HasPrefix(hp.Where, "yield:") {
+			return
+		}
+		if closer {
+			if !strings.Contains(hp.Where, ".Close:") {
+				return
+			}
+		} else if hp.G != me {
+			return
+		}
+		mu.Lock()
+		n++
+		mu.Unlock()
+	})
+	r.Do(op)
+	if closer && sc.closer == "cancel" {
+		awaitDisposed(r, leaf)
+	}
+	r.Rec.SetHook(nil)
+	r.Finish()
+	mu.Lock()
+	defer mu.Unlock()
+	return n
 }
